@@ -27,9 +27,21 @@ EXPLANATION = (
     "`not is_readonly()` (or None / a delegation), child write caps are decrypted only for a writeable directory, "
     "t=readonly-uri never serialises get_uri() of a writeable node; (6) private area: requestAvatarId grants only "
     "on credentials.equals(get_auth_token()), Token.equals is timing_safe_compare(valid, proposed), which compares "
-    "salted hashes, and the private tree is reachable only behind the HTTPAuthSessionWrapper. "
+    "salted hashes, and the private tree is reachable only behind the HTTPAuthSessionWrapper; (7) the node cache of "
+    "NodeMaker.create_from_cap is keyed by the cap the node was built from (C18.5, shared), MutableFileNode._writekey "
+    "- the value Publish asserts - is non-None only for a cap shown writeable and get_writekey() returns it (C18.6, "
+    "shared), a child's write authority enters the packed directory bytes only through _encrypt_rw_uri (C18.2, "
+    "shared); (8) the read-only answers "
+    "all of the above branch on: DirectoryNode.is_readonly / MutableFileNode.is_readonly return the read-only flag of "
+    "the cap the node was built from on every path, and every get_readonly_uri() (the string packed in clear into the "
+    "parent directory's read-only slot and served by t=json / t=readonly-uri) is <cap>.get_readonly().to_string(), a "
+    "delegation, None, or the node's own cap only in a class whose is_readonly() is constantly True (the cap classes' "
+    "own get_readonly()/is_readonly() are C16's subject). "
     "Undecided: behaviour with asserts disabled (-O), the storage servers' own write-enabler check, content of "
-    "HTML pages.")
+    "HTML pages, whether an *unknown* (future-format) cap string handed in by a client is a write cap (UnknownNode keeps "
+    "it in the slot it was given in; the prefix policy of UnknownNode.__init__ is value-level and C18's subject), "
+    "creation of new unlinked objects before a refused link (PUT ?format=SDMF below a read-only directory creates an "
+    "orphan mutable file: needs no authority, modifies nothing that exists), lease renewal by t=check&add-lease.")
 TECHNIQUE = "static analysis: CFG must-precede gates, who-may-call sweeps and value provenance of emitted caps"
 
 MFN = "mutable.filenode:MutableFileNode"
@@ -548,10 +560,88 @@ def run(ctx: Context):
             r.violation(cs.fn, cs.loc, "%s mounts the log resources outside the token-guarded tree" % short(cs.fn))
         # realm hands out only the guarded root
         ra = idx.func("web.private:PrivateRealm.requestAvatar")
+        ran = FlowNorm(ra)
         for n in ra.cfg().find(is_return):
-            v = n.ast.value
+            v = ran.resolve(n, n.ast.value) if n.ast.value is not None else None
             r.require(isinstance(v, ast.Tuple) and len(v.elts) == 3 and attr_path(v.elts[1]) == "self._root",
-                      ra, ra.loc(n.ast), "PrivateRealm.requestAvatar returns %s" % src(ra, v))
+                      ra, ra.loc(n.ast), "PrivateRealm.requestAvatar returns %s" % (src(ra, v) if v is not None else "None"))
+
+    # ------------------------------------------------------------------ C41.8
+    with ctx.rule("C41.8", "R6/R7", "the read-only answers every gate and every listing rests on: DirectoryNode / "
+                  "MutableFileNode.is_readonly() is the read-only flag of the cap the node was built from; every "
+                  "get_readonly_uri() answers a diminished cap (<cap>.get_readonly().to_string(), a delegation, None, "
+                  "or the node's own cap only in a class whose is_readonly() is constantly True)", expected=8) as r:
+        RO_FLAG = re.compile(r"^self\.(_node|_uri|get_cap\(\))\.is_readonly\(\)$")
+
+        def _always_returns(fn):
+            cfg = fn.cfg()
+            return not find_path_avoiding(cfg, lambda m: m.kind == "exit", gate_node=is_return)
+
+        for qual in (DIRN + ".is_readonly", MFN + ".is_readonly"):
+            fn = idx.func(qual)
+            rets = fn.cfg().find(is_return)
+            if not rets:
+                raise AnchorVanished("%s has no return" % short(fn))
+            r.site(fn, rets[0].ast, "is_readonly comes from the cap")
+            fnorm = FlowNorm(fn)
+            for n in rets:
+                s = fnorm.norm(n, n.ast.value) if n.ast.value is not None else "None"
+                r.require(RO_FLAG.match(s) is not None, fn, fn.loc(n.ast), "%s answers %s, not the read-only flag of "
+                          "the cap the node was built from: the NotWriteableError refusals, get_write_uri() and the "
+                          "child write-cap decryption all branch on it" % (short(fn), s))
+            r.require(_always_returns(fn), fn, fn.loc(), "%s can fall off its end (None: 'not read-only')" % short(fn))
+
+        def _const_true_readonly(ci):
+            ro = ci.lookup("is_readonly")
+            if ro is None:
+                return False
+            rets = ro.cfg().find(is_return)
+            return bool(rets) and _always_returns(ro) and all(
+                isinstance(n.ast.value, ast.Constant) and n.ast.value.value is True for n in rets)
+
+        def _readcap_diminishes(ci):
+            g = ci.lookup("get_readcap")
+            if g is None:
+                return False
+            rets = g.cfg().find(is_return)
+            gn = FlowNorm(g)
+            return bool(rets) and _always_returns(g) and all(
+                n.ast.value is not None and re.search(r"\.get_readonly\(\)$", gn.norm(n, n.ast.value)) is not None
+                for n in rets)
+
+        RO_TABLE = {"allmydata.unknown:UnknownNode.get_readonly_uri": "self.ro_uri"}   # opaque string kept as given
+        impls = [f for f in idx.by_name.get("get_readonly_uri", []) if f.cls is not None
+                 and not f.module.name.startswith("allmydata.interfaces")]
+        for f in impls:
+            r.site(f, None, "get_readonly_uri diminishes")
+            fnorm = FlowNorm(f)
+            for n in f.cfg().find(is_return):
+                v = n.ast.value
+                if v is None or (isinstance(v, ast.Constant) and v.value is None):
+                    continue
+                s = fnorm.norm(n, v)
+                if re.search(r"\.get_readonly\(\)\.to_string\(\)$", s) or re.search(r"\.get_readonly_uri\(\)$", s):
+                    continue
+                if RO_TABLE.get(f.qual) == s:
+                    continue
+                if re.match(r"^self\.get_readcap\(\)\.to_string\(\)$", s) and _readcap_diminishes(f.cls):
+                    continue
+                if re.match(r"^self\.(get_uri\(\)|\w+\.to_string\(\)|get_cap\(\)\.to_string\(\))$", s):
+                    if _const_true_readonly(f.cls):
+                        continue
+                    # the node's own cap is its read cap once the node is known to be read-only
+
+                    def known_ro(m, lab, _fn=fnorm):
+                        e = _fn.edge_fact(m, lab)
+                        return bool(e) and e[0] == "truth" and re.match(
+                            r"^self(\._node|\._uri|\.get_cap\(\))?\.is_readonly\(\)$", e[1]) is not None
+                    if not find_path_avoiding(f.cfg(), lambda x, _n=n: x is _n, gate_edge=known_ro):
+                        continue
+                r.violation(f, f.loc(n.ast), "%s answers %s: not a cap diminished with get_readonly() (this string is "
+                            "stored in clear in the parent directory's read-only slot and served by t=json / "
+                            "t=readonly-uri to holders of a read cap)" % (short(f), s))
+        if len(impls) < 6:
+            raise AnchorVanished("get_readonly_uri implementations not found (%d)" % len(impls))
 
 
 def nz_name(e):
@@ -578,4 +668,8 @@ _run_web_and_node_gates = run
 
 def run(ctx: Context):   # noqa: F811
     _run_web_and_node_gates(ctx)
-    ctx.include("C18", ["C18.5"], "C41.7")
+    # C18.5: cache key.  C18.6: the node's `_writekey` (what Publish's assert in C41.1 tests, through get_writekey())
+    # is non-None only for a cap shown to be writeable.  C18.2: the bytes of a directory readable with the read cap
+    # carry a child's write authority only inside _encrypt_rw_uri (the clear read-only slot is get_readonly_uri(),
+    # whose implementations C41.8 decides), so a listing made through a read cap cannot contain a child write cap.
+    ctx.include("C18", ["C18.5", "C18.6", "C18.2"], "C41.7")
